@@ -1,10 +1,58 @@
 #!/usr/bin/env python3
 """Regenerate MANIFEST.json from the table below (keeps it valid at all times)."""
 import json
+PBT = "property-based testing (proptest, seeded, 16 workers, shrinking to a replay file)"
+def C(level, technique, text, note, ref): return dict(level=level, technique=technique, text=text, note=note, ref=ref)
+EXPL = " Generated-input search: held on everything explored, not a proof."
 CLAIMED = {
- "C01": dict(level="exploration", technique="property-based testing (proptest): generated record scripts vs string reference model, in-process (u64+u128) and through ska build / ska nk",
-   text="Seeded generated-input search over record scripts, all 30 k, both strands and both integer widths; the observed dictionary must equal a string-based reference model exactly (both directions) and refusals must coincide. Exploration, not proof.",
-   note="Trusts needletail's FASTA parser and the reference model's reading of the documentation (windows of k valid bases, A<C<T<G order, IUPAC union). Inputs restricted to ACGTN in either case.", ref="DESIGN.md §5 C01"),
+ "C01": C("exploration", PBT+": generated record scripts vs string reference model, in-process (u64+u128) and through ska build / ska nk",
+   "Record scripts over all 30 k, both strands and both integer widths; the observed dictionary must equal a string-based reference model exactly (both directions) and refusals must coincide."+EXPL,
+   "Trusts needletail's FASTA parser and the reference model's reading of the documentation. Inputs restricted to ACGTN in either case.", "DESIGN.md §5 C01"),
+ "C02": C("exploration", PBT+": metamorphic relations (revcomp/permute/rewrap/case/gzip/sample order), no model",
+   "Transformed inputs must give the identical table (columns permuted only by the sample permutation), in-process and through the CLI."+EXPL,
+   "Needletail's gzip/line handling is exercised, not modelled.", "DESIGN.md §5 C02"),
+ "C03": C("exploration", PBT+": constructed planted-SNP genome sets, column multiset oracle through ska build/align",
+   "Ancestors with unique split k-mers by greedy construction, isolated substitutions, random orientation; output columns must equal the planted ones exactly (multiset up to complement)."+EXPL,
+   "Preconditions met by construction and re-checked; rejected cases counted.", "DESIGN.md §5 C03"),
+ "C04": C("exploration", PBT+": reference model of the mapped alignment vs ska map (CLI) and AlnWriter (in-process)",
+   "Generated references (short contigs, N, repeats, lower case) and derived samples; every output string must equal the union-of-windows model; refusal iff nothing maps; self-map corollary."+EXPL,
+   "ska map observed only through the CLI; contig names alphanumeric.", "DESIGN.md §5 C04"),
+ "C05": C("exploration", PBT+": differential oracle between ska map -f vcf and -f aln",
+   "The VCF must contain a record exactly where the alignment differs from the reference, with genotypes decoding to the aligned characters."+EXPL,
+   "The alignment itself is checked by C04.", "DESIGN.md §5 C05"),
+ "C06": C("exploration", PBT+": arbitrary symbol tables vs filter model, plus sub-multiset metamorphic relation",
+   "All 4x2x2x2 flag combinations and noise-free thresholds over arbitrary tables; emitted column multiset must equal the model's; a stricter setting yields a sub-multiset."+EXPL,
+   "Tables injected through the public API; thresholds chosen so ceil(f*n) is immune to floating point noise.", "DESIGN.md §5 C06"),
+ "C07": C("exploration", PBT+": model + differential (merge vs joint build) through the CLI, refusal cases",
+   "Partitions, argument orders and nesting generated; merged file must equal the model table and a joint build; incompatible inputs must be refused without output."+EXPL,
+   "Distinct sample names assumed.", "DESIGN.md §5 C07"),
+ "C08": C("exploration", PBT+": model + differential (delete vs build of the rest) through the CLI, refusal cases",
+   "Subsets, both name routes, in place / -o; result must equal the model and a build of the remaining samples; refusals leave the file byte-identical."+EXPL,
+   "Names file = one name per line.", "DESIGN.md §5 C08"),
+ "C09": C("exploration", PBT+": round trip save/load by the CLI's width dispatch, in-memory vs reloaded differential, CLI commands vs model on 64-bit-fitting k>=35 files",
+   "Every valid k; files whose k-mers fit 64 bits generated on purpose; width read == width written; every operation agrees between in-memory and reloaded data; CLI results equal the model."+EXPL,
+   "In-process calls single-threaded; map only via CLI.", "DESIGN.md §5 C09"),
+ "C10": C("exploration", PBT+": stateful/model-based histories of CLI operations against a table model, final differential against a fresh file",
+   "Histories of merge/delete/weed/weed-filter; after every step nk equals the model; three generated downstream commands agree between the file with history and a fresh file with the same content."+EXPL,
+   "weed thresholds only where n*f is an exact integer (floor/ceil discrepancy of ska weed noted, not asserted).", "DESIGN.md §5 C10"),
+ "C12": C("exploration", PBT+": string model of k-mer counting over generated read pairs (in-process and CLI), sandwich oracle must/may with collision allowance",
+   "Read sets with counts and qualities straddling the thresholds; everything reaching the count must be stored, nothing unobserved may be stored, extras bounded by the property's 0.1%."+EXPL,
+   "Collision bound checked statistically over the run.", "DESIGN.md §5 C12"),
+ "C13": C("exploration", PBT+": model + model-free partition/idempotence relations through ska weed",
+   "Weed files from substrings/rc/N/unrelated/whole samples; result equals the model; the two directions partition the original; second weed is a no-op."+EXPL,
+   "--min-freq 0 only.", "DESIGN.md §5 C13"),
+ "C14": C("exploration", PBT+": distance model over arbitrary unambiguous tables and built genome sets, invariance relations (k-mer order, sample order, threads)",
+   "Exact text comparison with the model for every pair; invariance under insertion order, sample permutation and thread count."+EXPL,
+   "Unambiguous tables only (the property's domain).", "DESIGN.md §5 C14"),
+ "C15": C("exploration", "complete enumeration of the lookup tables against a 4-bit set algebra + "+PBT+" for observation sequences",
+   "All 1024 IUPAC cells, 256 complement cells, classification and weights enumerated completely in every run (exhaustive for the tables); stored codes for generated observation sequences equal the union."+EXPL,
+   "RC_IUPAC['U'] and lower-case base_to_prob not asserted (unreachable).", "DESIGN.md §5 C15"),
+ "C16": C("exploration", "complete enumeration of all k-mers for k<=11 (13 thorough) + structured k-mers for every k + "+PBT+" for random k-mers and rolling sequences",
+   "Round trips, reverse complement, masks, single-window canonical form and hashes for every k-mer at small k; rolling vs from-scratch for generated sequences with N."+EXPL,
+   "Harness packing is the documented encoding.", "DESIGN.md §5 C16"),
+ "C20": C("exploration", PBT+": harness re-implementation of the mixture likelihood/gradient/cutoff vs hooked functions; simulated read pairs vs model histogram and CLI table",
+   "Likelihood, analytic gradient (also vs finite differences) and cutoff at generated parameter points; exact histogram, cutoff, labels and densities for simulated read sets."+EXPL,
+   "Needs the verif-hooks feature; optimiser convergence not asserted.", "DESIGN.md §5 C20"),
 }
 NOT_YET = {}
 props=[json.loads(l) for l in open('/verif/properties.jsonl')]
